@@ -227,6 +227,22 @@ func c11Case(c *mc.Ctx, p *ref.Pkt, what string, public bool) {
 			c.Ev.Class("leftover-behind-cleared-flag", 1)
 		}
 	}
+	// a packet that does not fill 188 bytes (the caller left the stuffing out): the reference encoding of what the
+	// struct holds, padded with 0xFF behind it - the adaptation_field_length says what the field holds, not more
+	if p.HasAF && p.AF != nil && !p.AF.Zero && p.AF.Stuffing > 0 {
+		af2 := *p.AF
+		af2.Stuffing = 0
+		short := append(append(append([]byte{}, want[:4]...), af2.Encode()...), p.Payload...)
+		for len(short) < 188 {
+			short = append(short, 0xff)
+		}
+		ls := fromRefPkt(p)
+		ls.AdaptationField.StuffingLength = 0
+		if o, n, err := astits.VerifWritePacket(ls); err != nil || n != 188 || !bytes.Equal(o, short) {
+			c.Rep.Report("encode-differs:short-packet-padding", det(fmt.Sprintf("writePacket of a packet shorter than 188 bytes (stuffing left out): n=%d err=%v\n got  %x\n want %x", n, err, o, short)))
+		}
+		c.Ev.Class("short-packet-padded", 1)
+	}
 	// re-emit what was parsed
 	out2, n2, err2 := astits.VerifWritePacket(got)
 	if err2 != nil || n2 != 188 || !bytes.Equal(out2, want) {
@@ -438,5 +454,5 @@ func checkC11(c *mc.Ctx) {
 	}
 	c.Ev.AddScenario(mc.Scenario{Name: "re-emit whole streams", SpaceSize: nre, Executed: nre, Exhaustive: true, Bound: "every packet of 4 multi-PID streams (all adaptation-field kinds), re-emitted after all packets were read"})
 	c.Ev.Sample(map[string]any{"what": jobs[len(jobs)/2].what, "bytes": mc.Hex(jobs[len(jobs)/2].p.Encode()[:24])})
-	c.Ev.Require("af-length-0", "afc-10", "stream-reemitted")
+	c.Ev.Require("af-length-0", "afc-10", "stream-reemitted", "short-packet-padded")
 }
